@@ -116,6 +116,8 @@ pub struct Plan<C> {
     pub strategy: BoxedStrategy<C>,
     pub check: fn(&C, &mut Stats) -> Verdict,
     pub cases: u64,
+    /// bound on proptest's shrinking (each iteration re-executes the oracle)
+    pub shrink_iters: u32,
 }
 
 pub fn run_worker<C>(ctx: &WorkerCtx, plan: Plan<C>) -> WorkerResult
@@ -209,7 +211,7 @@ where
         let config = Config {
             cases: share.min(u32::MAX as u64) as u32,
             failure_persistence: None,
-            max_shrink_iters: 4096,
+            max_shrink_iters: plan.shrink_iters,
             max_global_rejects: 1 << 20,
             max_local_rejects: 1 << 20,
             verbose: 0,
